@@ -14,6 +14,9 @@ go/cmd/c10 sample.  See docs/notes/C10.md.
 -/
 import KafkaVerif.Lemmas.Lockset
 import KafkaVerif.Gen.Accesses
+import KafkaVerif.Lemmas.LockProg
+import KafkaVerif.Gen.Skeletons
+import KafkaVerif.Gen.LockFacts
 
 namespace KV.C10
 open KV.Lockset
@@ -184,5 +187,46 @@ theorem repo_no_race : ∀ tr : List Ev, WF tr → Respects Gen.accesses tr → 
 theorem repo_excluded_are_racy :
     Gen.excluded.all (fun a => (Gen.excluded ++ rowsOf Gen.groups a.field).any (fun b => !pairOk a b || !pairOk b a)) = true := by
   decide +kernel
+
+/-! ## 4. The locksets of the table are re-derived by a verified analysis of the program skeletons
+
+`Gen/Skeletons.lean` (regenerated) holds the control structure of every function that matters for locksets;
+`Lemmas/LockProg.lean` proves the must-lockset analysis `an` sound for all runs of such skeletons
+(`an_sound`, `prog_sound`).  Here the analysis is *evaluated by the kernel* on the regenerated skeletons: the side
+conditions of the soundness theorem hold, and every lockset the extractor wrote into the access table — except the
+rows listed in `Gen.unjustifiedOcc` / `Gen.exemptOcc` — is contained in what the analysis derives for that site. -/
+
+open KV.LockProg
+
+theorem repo_skeleton_rel_ok : relOkB Gen.skeletons Gen.skRel = true := by decide +kernel
+
+/-- one kernel evaluation of the analysis over all skeletons: the entry locksets hold at every call site and the
+    indexed copy `Gen.skRowsT` of the rows agrees with the analysis -/
+theorem repo_skeleton_check : checkAllB Gen.skeletons Gen.skRel Gen.skEntryR Gen.skRowsT = true := by decide +kernel
+
+theorem repo_skeleton_entry_ok : entryOkB Gen.skeletons Gen.skRel Gen.skEntryR = true := checkAll_entry repo_skeleton_check
+
+theorem repo_rows_indexed : rowsIndexedB (allRows Gen.skeletons Gen.skRel Gen.skEntryR) Gen.skRowsT = true :=
+  checkAll_rows repo_skeleton_check
+
+/-- every table row outside the two listed sets is justified by the analysis -/
+theorem repo_table_justified :
+    Gen.accesses.all (fun a => justT Gen.skRowsT Gen.tokenIds a || Gen.exemptOcc.contains a.site ||
+      Gen.unjustifiedOcc.contains a.site) = true := by decide +kernel
+
+/-- **repo_locks_held** — for every function skeleton `g`, every run of its body that starts with at least its
+    entry lockset held, every access `(k, hk)` of that run (in the body, in callees, in closures), and every table
+    row `a` of site `k` that is not in the listed sets: the real locks recorded in row `a` are held (`⊆ hk`).
+    This is the `Respects` hypothesis of `repo_no_race`, proved for the skeleton semantics instead of assumed. -/
+theorem repo_locks_held {g : Nat} {body : Cmd} (hb : envOf Gen.skeletons g = some body)
+    {h h' : LS} {obs : List (Nat × LS)} {t : Out}
+    (hs : Sub (getLS Gen.skEntryR g) h) (hrun : Run (envOf Gen.skeletons) body h obs h' t)
+    {a : Access} (ha : a ∈ Gen.accesses) (hnu : Gen.unjustifiedOcc.contains a.site = false)
+    (hne : Gen.exemptOcc.contains a.site = false) {hk : LS} (hobs : (a.site, hk) ∈ obs) :
+    Sub (realLocks Gen.tokenIds a) hk := by
+  obtain ⟨L, hrow, hsub⟩ := prog_sound repo_skeleton_rel_ok repo_skeleton_entry_ok hb hs hrun a.site hk hobs
+  have hj := (List.all_eq_true.1 repo_table_justified) a ha
+  rw [hnu, hne] at hj
+  exact justT_held repo_rows_indexed (by simpa using hj) hrow hsub
 
 end KV.C10
